@@ -17,6 +17,7 @@ Apply(s, line) ==
   CASE line.ev = "CreateServer" -> DoCreateServer(s, line.s)
     [] line.ev = "DeleteServer" -> DoDeleteServer(s, line.s)
     [] line.ev = "CreateInst"   -> DoCreateInst(s, line.s, line.i, line.v)
+    [] line.ev = "SetInst"      -> DoSetInst(s, line.s, line.i, line.v)
     [] line.ev = "DeleteInst"   -> DoDeleteInst(s, line.s, line.i)
     [] line.ev = "Deliver"      -> IF CanDeliver(s) THEN DoDeliver(s) ELSE s
     [] line.ev = "Stop"         -> DoStop(s)
@@ -43,6 +44,7 @@ Next == /\ i < Len(Traces[t].lines)
                    ex |-> E("settled", settled)
                           \cup E("death", st.up /\ ~o.up /\ line.ev = "Deliver")
                           \cup E("stale", settled /\ \E s \in Srv, x \in Ins : o.ff[s][x] # 0 /\ o.zi[s][x] = 0)
+                          \cup E("outdated", settled /\ InnerWD /\ \E s \in Srv, x \in Ins : o.ff[s][x] # 0 /\ o.zi[s][x] # 0 /\ o.ff[s][x] # o.zi[s][x])
                           \cup E("unmirrored", settled /\ \E s \in Srv, x \in Ins : o.zi[s][x] # 0 /\ o.ff[s][x] = 0)]))
 Spec == Init /\ [][Next]_<<t, i, st>>
 =============================================================================
